@@ -341,6 +341,81 @@ func blockSweep(idx, n int) {
 	}
 }
 
+// blockHistorySweep: one block image resized twice (first to the full box, then to a smaller one) must draw
+// what a fresh image resized once to the smaller box draws (differential oracle: no expected colours).
+func blockHistorySweep(idx, n int) {
+	s := openSession(refterm.CapRGB, 8, 16, 6, 6)
+	defer s.Vx.Close()
+	k := 0
+	quad := len(pixelAlphabet)
+	total := quad * quad * quad * quad
+	for code := 0; code < total; code++ {
+		k++
+		if k%n != idx {
+			continue
+		}
+		// a 4x4 pixel image of four 2x2 quadrants
+		img := image.NewNRGBA64(image.Rect(0, 0, 4, 4))
+		var qs []color.Color
+		x := code
+		for q := 0; q < 4; q++ {
+			c := pixelAlphabet[x%quad]
+			x /= quad
+			qs = append(qs, c)
+			for dy := 0; dy < 2; dy++ {
+				for dx := 0; dx < 2; dx++ {
+					img.Set((q%2)*2+dx, (q/2)*2+dy, c)
+				}
+			}
+		}
+		for _, kind := range []string{"half", "full"} {
+			for _, box := range [][2]int{{2, 1}, {1, 1}, {2, 2}, {3, 1}} {
+				r.Count("block_cases", 1)
+				draw := func(history bool) [][]refterm.Cell {
+					win := s.Vx.Window()
+					win.Fill(vaxis.Cell{Character: vaxis.Character{Grapheme: "·", Width: 1}})
+					var im vaxis.Image
+					if kind == "half" {
+						im = s.Vx.NewHalfBlockImage(img)
+					} else {
+						im = s.Vx.NewFullBlockImage(img)
+					}
+					if history {
+						im.Resize(6, 6)
+					}
+					im.Resize(box[0], box[1])
+					im.Draw(win.New(1, 1, 4, 4))
+					s.Vx.Render()
+					var out [][]refterm.Cell
+					s.Con.With(func(t *refterm.Terminal) {
+						for _, row := range t.Grid() {
+							out = append(out, append([]refterm.Cell(nil), row...))
+						}
+					})
+					return out
+				}
+				fresh := draw(false)
+				again := draw(true)
+				bad := ""
+				for y := range fresh {
+					for x := range fresh[y] {
+						if bad == "" && (fresh[y][x].Text != again[y][x].Text || fresh[y][x].Style != again[y][x].Style) {
+							bad = fmt.Sprintf("cell %d,%d: an image resized to 6x6 and then to %dx%d shows %q %+v, a fresh image resized to %dx%d shows %q %+v", x, y, box[0], box[1],
+								again[y][x].Text, again[y][x].Style, box[0], box[1], fresh[y][x].Text, fresh[y][x].Style)
+						}
+					}
+				}
+				cs := fmt.Sprintf("4x4 pixels in quadrants %v, box %dx%d", qs, box[0], box[1])
+				if bad != "" {
+					r.Violation("C20|block|"+kind+"|resize-history", code, detail{Part: "block", Case: cs, Why: bad})
+					continue
+				}
+				r.Distinct(explore.Hash("block-history", kind, cs))
+			}
+		}
+	}
+}
+
 // ---- containment of image drawing ---------------------------------------------------------------------
 
 func containSweep() {
@@ -627,6 +702,7 @@ func main() {
 			resizeSweep(idx, n)
 		case arg == "block":
 			blockSweep(idx, n)
+			blockHistorySweep(idx, n)
 		case arg == "contain":
 			containSweep()
 		case strings.HasPrefix(arg, "bfs:"):
@@ -651,9 +727,9 @@ func main() {
 	n := r.Get("resize_cases") + r.Get("block_cases") + r.Get("contain_cases") + trans
 	r.Finish(explore.Coverage{
 		States: -1, Transitions: n, Traces: n, Evaluations: n,
-		Rule: "Resize: every image size 1..12 x 1..12 px (scaled with the cell geometry) x every box 0..7 x 0..7 for half-block and full-block (cell 1x2) and for kitty and sixel under cell geometries 1x1, 2x2, 2x3 (images up to 24x24 px), 8x16, 10x20 (pixel sizes learnt through the in-band resize report): box, no-upscale and aspect-within-one-cell. Block rendering: every assignment of a 7-value pixel alphabet (opaque, alpha 0/49/50/128, premultiplied half alpha) to images of 1x1..2x3 pixels, drawn and rendered, cell colours read from the reference terminal. Containment: kitty, sixel and half-block images of 1..4 x 1..3 cells into 5 windows. Placement histories: BFS to depth n over 14 frames {A absent / at two positions} x {B} x {Render, Refresh} + resize A, for kitty and sixel; the graphics commands of the last frame are compared with what the placement diff requires. distinct = cases/states that passed",
-		Exhaustive: true,
-		Bounds:     map[string]any{"placement_depth": r.Pick(4, 6), "placement_states": states},
+		Rule:        "Resize: every image size 1..12 x 1..12 px (scaled with the cell geometry) x every box 0..7 x 0..7 for half-block and full-block (cell 1x2) and for kitty and sixel under cell geometries 1x1, 2x2, 2x3 (images up to 24x24 px), 8x16, 10x20 (pixel sizes learnt through the in-band resize report): box, no-upscale and aspect-within-one-cell. Block rendering: every assignment of a 7-value pixel alphabet (opaque, alpha 0/49/50/128, premultiplied half alpha) to images of 1x1..2x3 pixels, drawn and rendered, cell colours read from the reference terminal. Containment: kitty, sixel and half-block images of 1..4 x 1..3 cells into 5 windows. Placement histories: BFS to depth n over 14 frames {A absent / at two positions} x {B} x {Render, Refresh} + resize A, for kitty and sixel; the graphics commands of the last frame are compared with what the placement diff requires. distinct = cases/states that passed; block resize history: every 4x4 px image of four quadrants over the pixel alphabet, resized to 6x6 and then to each of four smaller boxes, must draw exactly what a fresh image resized once draws",
+		Exhaustive:  true,
+		Bounds:      map[string]any{"placement_depth": r.Pick(4, 6), "placement_states": states},
 		Assumptions: []string{"un-premultiplied colours are compared with a tolerance of 1 per channel (rounding)", "aspect within one cell: some scale in (0,1] puts both dimensions within one cell of the result"},
 	})
 }
